@@ -45,6 +45,10 @@ def shape_of(t, depth=0):
         elif init[0] in ("list", "comp") or (init[0] == "call" and init[1] == "list") or (init[0] == "binop" and init[1] == "Mult"):
             kind = "list"
         elem = (None, None)
+        if init[0] == "comp" and init[1] in ("ListComp", "GeneratorExp") and len(init) > 2:
+            s0 = shape_of(init[2], depth + 1)
+            if s0[0] is not None:
+                elem = s0
         for (mk, subs, a, b, mn) in t[3]:
             v = None
             if mk in ("append", "add") and a:
@@ -58,6 +62,8 @@ def shape_of(t, depth=0):
         return (kind, elem)
     if tag in ("dict",):
         return ("dict", (None, None))
+    if tag == "comp" and t[1] in ("ListComp", "GeneratorExp") and len(t) > 2:
+        return ("list", shape_of(t[2], depth + 1))
     if tag in ("list", "comp"):
         return ("list", (None, None))
     if tag == "phi":
